@@ -196,6 +196,43 @@ THEOREMS = [
      "(rs_body (error_page 416) <> [] -> "
      "assoc H_VARY (rs_headers (vary_from_settings vn (error_page 416))) = Some (vary_value vn) /\\ "
      "rs_body (vary_from_settings vn (error_page 416)) = rs_body (error_page 416))"),
+    ("connection_end_keeps_histories",
+     "forall (checked : bool) (ops : list pkg_op) (alt : option bytes) (e416 : resp) (drain : bool) (exs : list exch), "
+     "(forall (p : proto) (secure : bool), pair_hist_end true checked ops alt e416 p drain secure exs = "
+     "pair_hist checked ops alt e416 p drain secure exs) /\\ "
+     "(forall shutdown : bool, pair_hist_end shutdown checked ops alt e416 H1 drain false exs = "
+     "pair_hist checked ops alt e416 H1 drain false exs)"),
+    ("close_delimited_complete_iff_close_notify",
+     "forall (m : N) (r : resp) (secure shutdown : bool), "
+     "(end_delimited m r = true -> "
+     "(receive_end m (h1_conn_end secure shutdown) (WClosed r) = WClosed r <-> secure = false \\/ shutdown = true) /\\ "
+     "(receive_end m (h1_conn_end secure shutdown) (WClosed r) = WBroken <-> secure = true /\\ shutdown = false)) /\\ "
+     "(end_delimited m r = false -> receive_end m (h1_conn_end secure shutdown) (WClosed r) = WClosed r) /\\ "
+     "(forall (ce : conn_end) (w : wreply), (forall x : resp, w <> WClosed x) -> receive_end m ce w = w)"),
+    ("close_without_notify_refuted",
+     "exists checked ops alt e416 exs body, Forall ex_ok exs /\\ body <> [] /\\ "
+     "pair_hist_end false checked ops alt e416 H1 true true exs = [Some (Ok WBroken)] /\\ "
+     "pair_hist_end false checked ops alt e416 H1 true false exs = "
+     "[Some (Ok (WClosed (mkResp V11 200 [(B \"content-type\", B \"text/plain\"); (B \"connection\", B \"close\")] body)))] /\\ "
+     "pair_hist_end false checked ops alt e416 H2 true true exs = "
+     "[Some (Ok (WResp (mkResp V2 200 [(B \"content-type\", B \"text/plain\")] body)))] /\\ "
+     "pair_hist_end true checked ops alt e416 H1 true true exs = "
+     "[Some (Ok (WClosed (mkResp V11 200 [(B \"content-type\", B \"text/plain\"); (B \"connection\", B \"close\")] body)))]"),
+    ("head_accepted_by_both",
+     "8 * H1_MAX_HEAD < H2_MAX_HEADER_LIST /\\ "
+     "forall (limit : N) (authority m t : bytes) (h : headers), 8 * H1_MAX_HEAD < limit -> h1_head_ok authority m t h = true -> "
+     "h2_head_ok limit authority m t h = true /\\ N.of_nat (length h) <= 4096"),
+    ("small_header_list_limit_refuted",
+     "exists (authority m t : bytes) (h : headers), h1_head_ok authority m t h = true /\\ h1_head_len authority m t h < 5000 /\\ "
+     "h2_head_ok H1_MAX_HEAD authority m t h = false /\\ h2_head_ok H2_MAX_HEADER_LIST authority m t h = true /\\ "
+     "run_head_gen H1_MAX_HEAD (XL [XL []; XL [XB m; XB t; x_headers h; XB []]]) = XL [XL [XN 200]; XL [XN 431]] /\\ "
+     "run_head (XL [XL []; XL [XB m; XB t; x_headers h; XB []]]) = XL [XL [XN 200]; XL [XN 200]]"),
+    ("reset_stream_is_its_own", "forall qs : list h2req, h2_answered true qs = h2_reset_spec qs"),
+    ("reset_limited_stream_v0_refuted",
+     "exists qs : list h2req, map hq_reset qs = [false; false; false; false; true; false] /\\ "
+     "h2_answered false qs = ([(7, 429)], false) /\\ "
+     "h2_answered true qs = ([(1, 200); (3, 200); (5, 200); (7, 429); (11, 429)], true) /\\ "
+     "h2_reset_spec qs = ([(1, 200); (3, 200); (5, 200); (7, 429); (11, 429)], true)"),
     ("bodiless_status_answer",
      _SEND + " (p : proto) (secure : bool) (alt : option bytes) (m : N) (path_ok : bool) (r w : resp), "
      "ends_with_head (rs_status r) = true -> "
@@ -262,7 +299,29 @@ RULE = ("Real kvarn::handle_connection on loopback TCP pairs, TLS by a rustls Se
         "(4) proto.sbody: extensions::stream_body() in process on files and Ranges (inside, across, at and beyond the end): bytes written, "
         "length announced, status and content-range against stream_plan / stream_head, and against an oracle written in Python (the "
         "requested part of the file, length = bytes written, 206 + content-range: bytes first-last/length for a Range, 200 without; "
-        "416 exactly when the Range starts at or after the end). A failure of an exchange that is a time-out or a connection that cannot be opened "
+        "416 exactly when the Range starts at or after the end). (5) REQUEST HEADS: requests with 100 - 1000 small header fields "
+        "(`x-fNNNN: v`: 1 - 12 kB as an HTTP/1 head, 4 - 42 kB as an HTTP/2 header list, where every field counts name + value + 32) and with "
+        "a few very long values, up to an HTTP/1 head of exactly 16384 bytes, are part of the histories of (1) (a directed history, run "
+        "cached and uncached, and ~6 % of the random requests; GET / HEAD / POST with a body, pages, files, 404, streamed); "
+        "proto.head: one request to a page that answers 200 over a fresh HTTP/1.1 (TLS) and a fresh HTTP/2 connection - 0 .. 2500 "
+        "small fields, heads of 16383 / 16384 / 16385 / 16391 / 20000 bytes made of one long value or of 1200 fields, random ones - "
+        "against the model of the two front ends (HTTP/1: answered iff the head is at most 16384 bytes, else the connection is ended "
+        "without an answer; HTTP/2: answered, the header list staying below h2's default limit) and the specification (a request the "
+        "HTTP/1 front end answers is answered the same over HTTP/2; 'not answered' counts only if a second run agrees). "
+        "(6) proto.rst: STREAMS THE CLIENT HAS RESET, on an HTTP/2 connection (TLS, ALPN h2) whose frames the harness writes by hand: the "
+        "preface, SETTINGS, one HEADERS frame per request (2 - 24 requests: pages whose handlers sleep 0 - 250 ms, pages, files, 404, 204, "
+        "streamed) and RST_STREAM(CANCEL) for 0 - 4 of them IN ONE WRITE, so that the server's accept loop is handed streams that are "
+        "already reset - on hosts without and with the request limiter (the first k requests pass, the rest are answered 429 by the loop "
+        "itself): the streams that were answered completely, their status (HPACK: static index or literal, the dynamic table switched off) and "
+        "whether the connection still answers a PING, against the model of the accept loop (h2_accept_loop) and the specification "
+        "(every stream that was not reset is answered - 200 / 404 / 204 / 429 - and the connection goes on; an outcome in which the "
+        "connection ended counts only if a second run agrees). "
+        "THE END OF AN HTTP/1.1 CONNECTION: the client records HOW a connection ended after `connection: close` - over TLS orderly = "
+        "the close_notify alert arrived before the end of the TCP stream (rustls reports its absence), over plain TCP = FIN, not a "
+        "reset. A body that only the end of the connection delimits (no content-length, not HEAD) counts as received only after an "
+        "orderly end - what a strict client does, as an end without close_notify cannot be told from a truncation -, otherwise the "
+        "exchange fails with 'body not cleanly terminated' (an outcome when three runs agree: VIOLATION); an unclean end after an answer "
+        "that is complete without it is the wire tag 6, which the model never predicts. A failure of an exchange that is a time-out or a connection that cannot be opened "
         "is never an outcome (the case is run again, then counted as not executed); any other failure is an outcome only when it repeats "
         "identically on three runs with fresh hosts. distinct_nontrivial = distinct (input, sequence of (status, cache/encoding class)) pairs")
 ASSUMPTIONS = [
@@ -287,7 +346,9 @@ ASSUMPTIONS = [
     "connection (pair_history_answered; close_delimited_not_last_refuted shows what follows it is not answered on that connection "
     "while the HTTP/2 connection goes on - the client has to open another connection: a difference of connections, not of answers); "
     "the client's view of such an answer (body = everything up to the end of the connection, which the server brings about itself) is "
-    "part of receive",
+    "part of receive; and the body is complete only if that end is an orderly one (receive_end: over TLS the close_notify alert of "
+    "HttpConnection::shutdown - RFC 8446 6.1, what hyper / curl require; over plain TCP the FIN) - "
+    "close_delimited_complete_iff_close_notify; the harness's client reports how the connection ended",
     "the names of the vary rules of a request's path (the 416 page advertises them, repair 21f0154) are the host's configuration: an "
     "input of model and specification, taken from the generator's own host description",
     "stream_independence: the handler contract of C03 (response a function of method class, path, vary tuple and - for "
@@ -297,11 +358,21 @@ ASSUMPTIONS = [
     "(lookup / insert) separated by the await on the handler; moka as a finite map whose capacity is never reached; a stream the "
     "client cancels is a stream whose answer is not observed (its task may run none, one or both of its blocks: every schedule is "
     "covered); the tasks of two connections to one host share exactly what the tasks of one connection share (the host)",
+    "streams the client resets (reset_stream_is_its_own): which requests the limiter answers is an input (C12's); a stream that "
+    "is reset and handed to a task is that task's business (its failing writes end the task, stream_independence covers its effects "
+    "on the cache); a task's answer reaches the client if the connection is still polled when it is written - true of the repaired "
+    "loop for every batch; the 409 answer for an unknown host ends the connection by design and is not part of the batches; beyond "
+    "3 * limit requests the limiter drops the connection (LimitAction::Drop, by design: not generated)",
     "compression: the representation clone_preferred chooses is a function of request and response, not of the cache path "
     "(the harness gives compression_options_oneshot = compression_options_cached); which bytes a compressor emits is external: "
     "the layer-4 response is observed, not predicted",
     "requests both protocols can express: lower-case header names, no host/connection/keep-alive/transfer-encoding/upgrade/te "
-    "request headers, origin-form target, a request body announced by content-length on both protocols and sent completely; no "
+    "request headers, origin-form target, a request body announced by content-length on both protocols and sent completely; a "
+    "request HEAD both front ends accept: at most 16384 bytes as an HTTP/1 head (request line, `host`, field lines, blank line - "
+    "kvarn ends the connection without an answer beyond that: h1_head_ok, observed by proto.head) - head_accepted_by_both proves "
+    "that the HTTP/2 front end (h2's header-list accounting, limit 16 MiB, and its 24576-field cap) then accepts it too, so this is "
+    "the only head limit in the domain; requests beyond it (answered over HTTP/2 only) are outside the property's quantifier and "
+    "are exercised against the model only; no "
     "HTTP/2 server push, HTTP/3 not exercised (UDP/QUIC); the 409 answer for an unknown host is modelled (send_direct) but not "
     "exercised (every request reaches the one host)",
     "request bodies only with methods whose content-length kvarn's HTTP/1 reader honours (utils::get_body_length_request returns 0 "
@@ -324,7 +395,14 @@ ASSUMPTIONS = [
     "over it)",
 ]
 TRUSTED = [
-    "modelled (Model/Protocols.v): src/lib.rs handle_connection (alt-svc append, per-request task for HTTP/2, the HTTP/1 request loop "
+    "modelled (Model/Protocols.v): src/lib.rs handle_connection (alt-svc append, per-request task for HTTP/2, the way the HTTP/1 request "
+    "loop is left - break, then HttpConnection::shutdown: close_notify on TLS; shutdown = false is the variant that returns instead -, "
+    "the HTTP/2 accept loop with streams the client has reset: the limiter's 429 written by the loop itself, its failure on a reset "
+    "stream - ClientRefusedResponse - now a continue: fix 2bfb61f, cont = false is the code before, which returned and dropped the "
+    "connection with every unwritten answer; "
+    "the request-head limits of the two front ends: HttpConnection::accept's 16 * 1024 for kvarn_async::read::request and - h2 0.4 "
+    "frame/headers.rs load_hpack, transcribed - name + value + 32 per field against h2's default header-list limit, which "
+    "HttpConnection::new leaves in place; the HTTP/1 request loop "
     "with the fate of a request body: Http1Body::new's early bytes, read_to_bytes(l) taking min(declared, l), Http1Body::drain of "
     "fix dfe4d54 - and the loop before that fix as the variant drain = false; the limiter's 429 / the 409 answer: send_direct), "
     "SendKind::send as merged on /repo main (the body of a 1xx/204/304 dropped: 89e2956; range application - not to a 304: 9ae9b1a - "
@@ -340,7 +418,8 @@ TRUSTED = [
     "416 page; extensions::stream_body's range arithmetic, status and content-range (stream_plan / stream_head; fix d675f8a, "
     "clamp = false is the code before); "
     "h2 0.4 proto/streams/send.rs check_headers (the only h2 logic transcribed)",
-    "NOT modelled, exercised only: rustls (handshake, records, ALPN selection), h2 (HPACK, flow control incl. the WINDOW_UPDATEs "
+    "NOT modelled, exercised only: rustls (handshake, records, ALPN selection, the close_notify alert itself and its detection by the "
+    "client's rustls), h2 (HPACK, flow control incl. the WINDOW_UPDATEs "
     "Body::read_to_bytes releases, the windows a 1 MiB / streamed 81 kB answer needs, and the RST_STREAM(NO_ERROR) after an answer "
     "whose request body was not read, frame scheduling and the splitting of send_data into frames, stream state machine, RST_STREAM "
     "from the client, the client-side content-length check), tokio task scheduling (multi-thread runtime, 3 workers), moka; "
@@ -349,14 +428,17 @@ TRUSTED = [
     "layer 4 (handle_cache and below) is C03's model in the theorems and an OBSERVATION of the real handle_cache on an identical "
     "fresh host in the correspondence (proto.l4: response, sanitize class, what the response's future writes and the overridden "
     "length); the twin hosts are deterministic functions of the configuration",
-    "harness/src/c20.rs: raw HTTP/1.1 client (strict status line / header / content-length framing, sentinel request), h2 client "
+    "harness/src/c20.rs: the hand-written HTTP/2 client of proto.rst (frame headers, HPACK literals without indexing for the request, "
+    ":status decoded from the static index or a literal incl. the Huffman code of three digits, SETTINGS_HEADER_TABLE_SIZE = 0, PING); "
+    "raw HTTP/1.1 client (strict status line / header / content-length framing, sentinel request; how a connection "
+    "ended is taken from tokio-rustls: read = 0 only after close_notify, an error otherwise), h2 client "
     "driver, rcgen certificate, Package / H_slow / echo / echon / echo2 / stream / read-body extensions; header multisets are sorted "
     "before comparison, the value of last-modified is masked; the echo handlers echo what read_to_bytes returned UNCUT on a "
     "connection (only the in-memory Body::Bytes of the layer-4 probe, which ignores the limit and is neither protocol, is cut to "
     "the limit: that yields the specification 'the first l bytes'); the classification of failures into harness trouble / outcome "
     "(is_trouble, three agreeing runs)",
 ]
-LEVEL_TEXT = ("partial. Machine-checked Coq theorems (30, statements pinned) over an executable model of the protocol-dependent path above "
+LEVEL_TEXT = ("partial. Machine-checked Coq theorems (37, statements pinned) over an executable model of the protocol-dependent path above "
               "the shared layer 4 of C03: protocol_parity / send_parity (for every host configuration, cache state, request, layer-4 "
               "response, TLS or plain HTTP/1 connection and oblivious Package chain the HTTP/1.1 and HTTP/2 answers are equal after "
               "dropping the version and exactly the headers connection, keep-alive, proxy-connection, transfer-encoding, upgrade, te, "
@@ -388,8 +470,22 @@ LEVEL_TEXT = ("partial. Machine-checked Coq theorems (30, statements pinned) ove
               "first l bytes on both protocols; read_to_bytes_resumes: with the repaired Http1Body a reader that took part of the "
               "body through AsyncRead gets the bytes that follow), pair_history_answered (the executable history model of the "
               "correspondence - ordinary, streamed, unknown-length and limiter-answered exchanges - equals its specification on "
-              "every input of the domain in which at most the last answer ends the HTTP/1 connection); and "
-              "seven witnesses: close_delimited_not_last_refuted (after a streamed answer of unknown length the HTTP/1 connection "
+              "every input of the domain in which at most the last answer ends the HTTP/1 connection); THE END OF THE CONNECTION: "
+              "close_delimited_complete_iff_close_notify (an answer whose body only the end of the HTTP/1 connection delimits is "
+              "complete iff that end is orderly - over TLS iff handle_connection shut the connection down, i.e. close_notify was "
+              "sent; every other answer is complete whatever the end) and connection_end_keeps_histories (with the shutdown the "
+              "code performs after leaving the request loop by break - and on plain TCP in any case - the history model with the "
+              "connection end in it, which is what the correspondence runs, IS the one of the history theorems); REQUEST HEADS: "
+              "head_accepted_by_both (every request head the HTTP/1 front end accepts - at most 16384 bytes - is below any HTTP/2 "
+              "header-list limit above 128 KiB, in particular h2's default 16 MiB which kvarn leaves in place, and has at most 4096 "
+              "fields: no request is answered over HTTP/1.1 and refused 431 over HTTP/2); RESET STREAMS: reset_stream_is_its_own "
+              "(for every batch of HTTP/2 streams - answered by the limiter or by tasks of their own, reset by the client or not, in any "
+              "combination - every stream that was not reset receives its own answer and the connection is still served); and "
+              "ten witnesses: reset_limited_stream_v0_refuted (before fix 2bfb61f a reset stream that the limiter answers ended the whole "
+              "connection: of six streams only the 429 written before it arrived), close_without_notify_refuted (leaving the request loop by return instead of break: the streamed answer "
+              "of unknown length is complete over HTTP/2 and plain HTTP/1.1 and cannot be told from a truncated one over TLS), "
+              "small_header_list_limit_refuted (16 KiB as HTTP/2 header-list limit is not 'the same limit' as the 16 KiB HTTP/1 head: "
+              "450 small fields, a head of 4.5 kB, are answered 200 over HTTP/1.1 and 431 over HTTP/2), close_delimited_not_last_refuted (after a streamed answer of unknown length the HTTP/1 connection "
               "answers nothing more, the HTTP/2 one does: the client opens another connection; each answer is the same), head_end_of_stream_refuted (why the head must not carry END_STREAM when Response::body is empty), "
               "unread_request_body_v0_refuted (the loop before fix dfe4d54), head_stream_v0_refuted (before fix "
               "d63bba7 a HEAD for a streamed response got the streamed bytes: broken framing on both protocols), "
@@ -399,11 +495,13 @@ LEVEL_TEXT = ("partial. Machine-checked Coq theorems (30, statements pinned) ove
               "client (full wire answers vs. the extracted model, parity and specification oracles; streamed responses, every "
               "connection-header subset, limiter answers, 64 KiB / 1 MiB compressed bodies, cached and uncached; bursts of up to 100 "
               "streams with seeded handler delays, cancelled streams and two connections vs. each request alone; histories with "
-              "unread / partly read / large request bodies; what read_to_bytes returns per protocol). NOT proved, only exercised "
+              "unread / partly read / large request bodies; what read_to_bytes returns per protocol; requests with up to 1200 "
+              "header fields and heads of exactly 16384 bytes through both protocols, the two front ends at and beyond the HTTP/1 "
+              "head limit; how every HTTP/1.1 connection that the server ends is ended - close_notify or not). NOT proved, only exercised "
               "by that run: everything inside the h2 and rustls crates - HPACK, flow control, frame splitting and scheduling, stream "
               "state machine, RST_STREAM handling, TLS and ALPN - and the tokio scheduler; the concurrency theorem is about "
-              "sequentially consistent interleavings of two atomic blocks per task. Two kvarn defects found by this round were "
-              "repaired (d63bba7, d675f8a) and are part of the claim, as is the former known class h1-unread-request-body (dfe4d54); "
+              "sequentially consistent interleavings of two atomic blocks per task. Three kvarn defects found by these rounds were "
+              "repaired (d63bba7, d675f8a, 2bfb61f) and are part of the claim, as is the former known class h1-unread-request-body (dfe4d54); "
               "the model describes /repo main with the repairs of all properties merged (7334433, 89e2956, 3c296af, 21f0154, "
               "9ae9b1a, the Http1Body repairs of C07, the request-parser repairs aca6293 / 2dbf4ed on the input side). "
               "Two known classes, both outside the property's quantifier: h1-undeclared-request-body (kvarn's HTTP/1 reader ignores "
@@ -414,7 +512,9 @@ LEVEL_TEXT = ("partial. Machine-checked Coq theorems (30, statements pinned) ove
 LEVEL_NOTE = ("Trusted: Coq kernel; extraction (sample re-checked in-kernel); the hand transcription of SendKind::send / ResponsePipe / "
               "ResponseBodyPipe / Body::read_to_bytes / handle_connection's request loop / stream_body's range arithmetic into "
               "Model/Protocols.v and of the clients' framing into receive, as validated by the differential run; h2 and rustls as "
-              "black boxes; layer 4 and stream futures observed on a twin host; request bodies only where kvarn's HTTP/1 reader "
+              "black boxes (of h2 only check_headers and the header-list accounting of load_hpack are transcribed; that rustls's close_notify "
+              "is what HttpConnection::shutdown sends and what the client detects is observed, not modelled); layer 4 and stream "
+              "futures observed on a twin host; request heads of at most 16384 bytes; request bodies only where kvarn's HTTP/1 reader "
               "honours content-length (not GET/HEAD/OPTIONS), first read_to_bytes call only. No axioms.")
 TECHNIQUE = ("Coq proof (equality up to an explicit header filter; a small-step model of the response pipe with the client's framing; "
              "inductive invariant over all schedules, reusing C03's simulation; induction over DATA frames) + differential "
@@ -715,6 +815,8 @@ def rand_body(rng, n):
 
 
 def rand_request(rng, focus=None):
+    if rng.random() < 0.06:
+        return many_fields_request(rng)
     t = rng.choice(focus) if focus and rng.random() < 0.7 else rng.choice(PATHS)
     m = rng.choice([b"GET", b"GET", b"GET", b"GET", b"HEAD", b"HEAD", b"POST", b"OPTIONS", b"PUT", b"POST", b"PUT", b"DELETE", b"PATCH", b"PURGE"])
     hs = []
@@ -776,6 +878,67 @@ def history(rng):
         h = [(b"accept-encoding", ae)] if ae else []
         reqs += [R(b"GET", t, h), R(b"HEAD", t, h), R(b"GET", t, h + [(b"range", range_values(rng))]), R(b"HEAD", t, h + [(b"range", b"bytes=1-3")])]
     return reqs
+
+
+# ---- the request-head limits of the two front ends ----
+# HTTP/1: the head (request line, field lines, blank line; line ends included) may be 16384 bytes (kvarn_async::read::request,
+# max_len = 16 * 1024 in HttpConnection::accept); HTTP/2: the header list - name + value + 32 per field, pseudo-headers
+# included - must stay below h2's limit (default 16 MiB, which kvarn leaves in place).  The harness's clients send
+# `host: localhost:8443` / `:authority: localhost:8443`, `:scheme: https`.
+H1_MAX_HEAD = 16384
+AUTHORITY = b"localhost:8443"
+
+
+def h1_head_len(r):
+    m, t, hs, _ = r
+    return len(m) + 1 + len(t) + 1 + 8 + 2 + (4 + len(AUTHORITY) + 4) + sum(len(n) + len(v) + 4 for n, v in hs if n != LATE) + 2
+
+
+def h2_list_size(r):
+    m, t, hs, _ = r
+    return (7 + len(m) + 32) + (7 + 5 + 32) + (10 + len(AUTHORITY) + 32) + (5 + len(t) + 32) + sum(len(n) + len(v) + 32 for n, v in hs if n != LATE)
+
+
+def small_fields(n, vlen=1, start=0):
+    """n small header fields `x-fNNNN: v` (distinct names)"""
+    return [(b"x-f%04d" % (start + i), b"v" * vlen) for i in range(n)]
+
+
+def pad_to_head(r, target):
+    """one more field so that the HTTP/1.1 head of the request is exactly `target` bytes (None if that cannot be done)"""
+    need = target - h1_head_len(r) - len(b"x-pad") - 4
+    if need < 0:
+        return None
+    m, t, hs, b = r
+    return R(m, t, list(hs) + [(b"x-pad", b"p" * need)], b)
+
+
+def many_fields_request(rng, m=None, t=None):
+    """a request both front ends accept: many small fields (an HTTP/2 header list 4 - 7 times the HTTP/1 head), or a few
+    long values, up to an HTTP/1 head of exactly 16384 bytes"""
+    m = m or rng.choice([b"GET", b"GET", b"HEAD", b"POST"])
+    t = t or rng.choice([b"/p", b"/p", b"/f.txt", b"/missing", b"/m", b"/q?x=1", b"/st1", b"/n"])
+    u = rng.random()
+    if u < 0.6:
+        hs = small_fields(rng.choice([100, 300, 430, 450, 700, 1000, rng.randrange(1, 1100)]), rng.choice([0, 1, 1, 2]))
+    elif u < 0.8:
+        k = rng.choice([1, 2, 3, 7])
+        hs = [(b"x-long%d" % i, b"L" * (rng.choice([15000, 16000, 16100]) // k)) for i in range(k)]
+    else:
+        hs = small_fields(rng.randrange(0, 600))
+    if rng.random() < 0.3:
+        hs.append((b"accept-encoding", rng.choice([b"gzip", b"br"])))
+    body = b""
+    if m == b"POST":
+        t = b"/echo"
+        body = rand_body(rng, rng.choice([1, 700, 20000]))
+        hs.append((b"content-length", b"%d" % len(body)))
+    r = R(m, t, hs, body)
+    if u >= 0.6 and rng.random() < 0.5:
+        r = pad_to_head(r, H1_MAX_HEAD - rng.choice([0, 0, 1, 2, 100])) or r
+    while h1_head_len(r) > H1_MAX_HEAD:
+        r = R(m, t, list(r[2])[1:], body)
+    return r
 
 
 SMUGGLE = b"GET /s HTTP/1.1\r\nhost: x\r\n\r\n"     # an unread body that looks like a request must not be answered
@@ -859,6 +1022,15 @@ DIRECTED_HISTORIES = [
      R(b"GET", b"/m", [(b"range", b"bytes=50-60"), (b"x-custom", b"vv")]), R(b"HEAD", b"/m", [(b"range", b"bytes=11-")]),
      R(b"GET", b"/p"), R(b"GET", b"/p", [(b"if-modified-since", b"@T+100"), (b"range", b"bytes=0-3")]),
      R(b"GET", b"/p", [(b"if-modified-since", b"@T+100"), (b"range", b"bytes=900-")]), R(b"GET", b"/p", [(b"range", b"bytes=900-")])],
+    # requests with MANY SMALL header fields (100 .. 1000 fields `x-fNNNN: v`: 1 - 11 kB as an HTTP/1 head, 4 - 42 kB as an HTTP/2
+    # header list, where every field counts name + value + 32) and with a few very long values, up to an HTTP/1 head of exactly
+    # 16384 bytes - both front ends accept them (head_accepted_by_both), so both protocols have to answer them alike
+    [R(b"GET", b"/p", small_fields(100)), R(b"GET", b"/p", small_fields(300)), R(b"GET", b"/p", small_fields(430)),
+     R(b"HEAD", b"/p", small_fields(450)), R(b"GET", b"/missing", small_fields(450)), R(b"GET", b"/f.txt", small_fields(700, 2)),
+     R(b"GET", b"/p", small_fields(1000) + [(b"accept-encoding", b"gzip")]),
+     R(b"POST", b"/echo", small_fields(600) + [(b"content-length", b"700")], b"h" * 700),
+     R(b"GET", b"/p", [(b"x-long", b"L" * 16000)]), pad_to_head(R(b"GET", b"/q?x=1", [(b"x-long", b"L" * 8000)]), H1_MAX_HEAD),
+     pad_to_head(R(b"GET", b"/m", small_fields(1200, 0)), H1_MAX_HEAD - 1), R(b"GET", b"/st1", small_fields(500)), R(b"GET", b"/p")],
     # a streamed body of UNKNOWN length (with_future, no content-length): HTTP/2 ends the stream, HTTP/1 ends the connection
     # (7334433) - as the last request of a history: GET / HEAD / with an unread request body / ranged
     [R(b"GET", b"/st1"), R(b"GET", b"/p"), R(b"GET", b"/st6")],
@@ -1139,19 +1311,92 @@ def gen_sbodies(rng, n):
     return [Case("proto.sbody", xl(xb(f), xopt(None if r is None else xl(xn(r[0]), xn(r[1])))), None, {"kind": "stream_body"}) for f, r in plans]
 
 
+def head_case(cfg, r, kind):
+    ok = h1_head_len(r) <= H1_MAX_HEAD
+    return Case("proto.head", xl(cfg, x_req(r)), "proto.head_spec",
+                {"kind": kind + ("" if ok else "-beyond-h1"), "fields": len(r[2]), "h1_head": h1_head_len(r), "h2_list": h2_list_size(r)})
+
+
+def gen_heads(rng, n):
+    """proto.head: one request to the sentinel page over a fresh HTTP/1.1 (TLS) and a fresh HTTP/2 connection: is it answered?
+    Around the limit of the HTTP/1 head (16384 bytes, reached with one long value / with 1600 small fields), and far above
+    what a 16 KiB header-LIST limit on the HTTP/2 side would allow (430+ small fields)"""
+    cfg = mini_cfg(False, [])
+    base = R(b"GET", b"/s", [])
+    reqs = [R(b"GET", b"/s", small_fields(k)) for k in (0, 100, 300, 430, 450, 700, 1000, 1300, 1500)]
+    for target in (H1_MAX_HEAD - 1, H1_MAX_HEAD, H1_MAX_HEAD + 1, H1_MAX_HEAD + 7, 20000):
+        reqs.append(pad_to_head(base, target))
+        reqs.append(pad_to_head(R(b"GET", b"/s", small_fields(1200)), target))
+    reqs += [R(b"GET", b"/s", small_fields(1630)), R(b"HEAD", b"/s", small_fields(2500, 3))]
+    cases = [head_case(cfg, r, "head-directed") for r in reqs]
+    for _ in range(n):
+        u = rng.random()
+        if u < 0.5:
+            r = R(rng.choice([b"GET", b"HEAD"]), b"/s", small_fields(rng.randrange(0, 1800), rng.choice([0, 1, 1, 2, 5])))
+        elif u < 0.8:
+            r = pad_to_head(R(b"GET", b"/s?q=%d" % rng.randrange(1000), small_fields(rng.randrange(0, 1000))),
+                            H1_MAX_HEAD + rng.choice([-300, -2, -1, 0, 0, 1, 2, 300])) or base
+        else:
+            k = rng.choice([1, 2, 5])
+            r = R(b"GET", b"/s", [(b"x-long%d" % i, b"L" * (rng.randrange(12000, 20000) // k)) for i in range(k)])
+        cases.append(head_case(cfg, r, "head"))
+    return cases
+
+
+# ---- streams the client has reset, frames written by hand (proto.rst) ----
+RST_PAGES = [(b"/p", 200), (b"/missing", 404), (b"/f.txt", 200), (b"/nc", 204), (b"/st1", 200)]
+
+
+def rst_case(limit, reqs, statuses, resets, kind):
+    slow = [(b"/slow0", b"slow page ", 0), (b"/slow1", b"another slow page ", 2)]
+    cfg = host_cfg(False, [], slow=slow, limit=limit)
+    vs = [xl(xbool(limit is not None and i >= limit), xn(st)) for i, st in enumerate(statuses)]
+    x = xl(cfg, xlist([x_req(r) for r in reqs]), xlist([xn(i) for i in resets]), xlist(vs))
+    return Case("proto.rst", x, "proto.rst_spec", {"kind": kind, "streams": len(reqs), "reset": len(resets),
+                                                   "reset_and_limited": sum(1 for i in resets if limit is not None and i >= limit)})
+
+
+def gen_rsts(rng, n):
+    """proto.rst: a batch of requests and RST_STREAMs for some of them in ONE write on a hand-written HTTP/2 connection: the
+    server's accept loop meets streams the client has already reset - among them streams the host's limiter answers (429)"""
+    def slow_req(d):
+        return R(b"GET", rng.choice([b"/slow0", b"/slow1"]), [(b"x-delay", b"%d" % d)])
+    # the witness of reset_limited_stream_v0_refuted: 3 streams pass (handlers sleeping 200 ms), 3 are answered 429, the 5th is reset
+    cases = [rst_case(3, [slow_req(200) for _ in range(6)], [200] * 6, [4], "reset-directed"),
+             rst_case(3, [slow_req(200) for _ in range(6)], [200] * 6, [3, 5], "reset-directed"),
+             rst_case(3, [slow_req(150) for _ in range(6)], [200] * 6, [1], "reset-directed"),
+             rst_case(None, [slow_req(100) for _ in range(6)], [200] * 6, [0, 4], "reset-directed"),
+             rst_case(2, [slow_req(100), R(b"GET", b"/p"), R(b"HEAD", b"/p"), R(b"GET", b"/missing")], [200, 200, 200, 404], [2], "reset-directed")]
+    for _ in range(n):
+        limit = rng.choice([None, 2, 3, 5, 8])
+        k = rng.randrange(2, 3 * limit + 1) if limit else rng.randrange(2, 20)    # (beyond 3 * limit the limiter drops the connection)
+        reqs, sts = [], []
+        for i in range(k):
+            if rng.random() < 0.6:
+                reqs.append(slow_req(rng.choice([0, 20, 80, 150, 250])))
+                sts.append(200)
+            else:
+                t, st = rng.choice(RST_PAGES)
+                reqs.append(R(rng.choice([b"GET", b"GET", b"HEAD"]), t))
+                sts.append(st)
+        resets = sorted(rng.sample(range(k), rng.randrange(0, min(k, 4) + 1)))
+        cases.append(rst_case(limit, reqs, sts, resets, "reset"))
+    return cases
+
+
 def generate(rng, tier):
     if tier == "thorough":
         cases = (gen_pairs(rng, 1500, n_limited=40, big=(1, 2, 1, 2)) + gen_servers(rng, 40) + gen_mini(rng, 100) + gen_answered(rng, 150)
-                 + gen_bodies(rng, 300) + gen_sbodies(rng, 150)
+                 + gen_bodies(rng, 300) + gen_sbodies(rng, 150) + gen_heads(rng, 200) + gen_rsts(rng, 200)
                  + gen_bursts(rng, [2, 3, 4, 6, 8, 12, 16, 24, 32] * 14 + [32] * 6 + [64, 100] * 6))
     else:
         cases = (gen_pairs(rng, 40, n_limited=2, big=(1, 2)) + gen_servers(rng, 6) + gen_mini(rng, 16) + gen_answered(rng, 6)
-                 + gen_bodies(rng, 14) + gen_sbodies(rng, 8) + gen_bursts(rng, [2, 3, 5, 9, 16, 32, 100]))
+                 + gen_bodies(rng, 14) + gen_sbodies(rng, 8) + gen_heads(rng, 10) + gen_rsts(rng, 12) + gen_bursts(rng, [2, 3, 5, 9, 16, 32, 100]))
     return cases
 
 
 def directed(rng, mismatches):
-    return (gen_pairs(rng, 100, "directed", n_limited=6, big=()) + gen_bodies(rng, 60)
+    return (gen_pairs(rng, 100, "directed", n_limited=6, big=()) + gen_bodies(rng, 60) + gen_heads(rng, 40) + gen_rsts(rng, 40)
             + [c for c in gen_bursts(rng, [4, 8, 16, 32, 32, 12], "directed-burst") if c.spec])
 
 
@@ -1184,10 +1429,12 @@ def wire(w):
             return "refused"
         if inner[1][0] == ("N", 4):
             return "broken"
-        assert inner[1][0] in (("N", 0), ("N", 5))
+        # (N 5): the HTTP/1.1 connection ended with this answer, in an orderly way (close_notify on TLS); (N 6): it ended
+        # without close_notify / by a reset after an answer that is complete without that end (HEAD, content-length)
+        assert inner[1][0] in (("N", 0), ("N", 5), ("N", 6))
         v, st, hs, b = inner[1][1][1]
         return {"version": v[1], "status": st[1], "headers": sorted((h[1][0][1], h[1][1][1]) for h in hs[1]), "body": b[1],
-                "closed": inner[1][0] == ("N", 5)}
+                "closed": inner[1][0] in (("N", 5), ("N", 6)), "unclean": inner[1][0] == ("N", 6)}
     except Exception:
         return None
 
@@ -1213,6 +1460,27 @@ def spec_ok(c, i, s):
     except Exception:
         return False
     if c.comp == "proto.answered":
+        return iv == sv
+    if c.comp == "proto.rst":
+        if iv != sv:
+            try:
+                got = [(a[1][0][1], a[1][1][1]) for a in iv[1][0][1]]
+                want = [(a[1][0][1], a[1][1][1]) for a in sv[1][0][1]]
+                resets = [2 * r[1] + 1 for r in c.x[1][2][1]]
+                lim = [2 * i + 1 for i, v in enumerate(c.x[1][3][1]) if v[1][0] == ("N", 1)]
+                c.meta["why"] = ("%d requests as streams %s of one HTTP/2 connection, the client resets stream(s) %s in the same write (the host's limiter "
+                                 "answers streams %s): answered (stream, status) %r, connection %s afterwards; every stream that was not reset has to be "
+                                 "answered: %r" % (len(c.x[1][1][1]), [2 * i + 1 for i in range(len(c.x[1][1][1]))], resets, lim, got,
+                                                   "alive" if iv[1][1] == ("N", 1) else "ENDED", want))[:1500]
+            except Exception:
+                pass
+        return iv == sv
+    if c.comp == "proto.head":
+        # (L (N 96)): the HTTP/1 front end does not accept this head - not a request both protocols can express, no claim
+        if sv == ("L", [("N", 96)]):
+            return True
+        if iv != sv:
+            c.meta["why"] = head_why(c, iv)
         return iv == sv
     if c.comp in PAIRS:
         if iv[0] != "L" or len(iv[1]) != len(sv[1]) or (iv[1] and iv[1][0][0] == "N"):
@@ -1261,6 +1529,32 @@ def spec_ok(c, i, s):
     return False
 
 
+def head_why(c, iv):
+    def show(e):
+        try:
+            return "answered %d" % e[1][0][1] if e[1] else "NOT answered"
+        except Exception:
+            return "?"
+    try:
+        return ("a %s request with %d header fields - an HTTP/1.1 head of %d bytes (limit 16384), an HTTP/2 header list of %d bytes - "
+                "was %s over HTTP/1.1 and %s over HTTP/2" % (c.x[1][1][1][0][1].decode(), c.meta.get("fields", -1), c.meta.get("h1_head", -1),
+                                                           c.meta.get("h2_list", -1), show(iv[1][0]), show(iv[1][1])))
+    except Exception:
+        return "the two front ends disagree: " + kv.pretty(iv, 200)
+
+
+def head_oracle(c, i):
+    """parity itself: a request the HTTP/1 front end answers is answered the same by the HTTP/2 front end"""
+    try:
+        v = kv.xparse(i)
+        h1, h2 = v[1][0][1], v[1][1][1]
+    except Exception:
+        return "unparsable output"
+    if h1 and h1 != h2:
+        return head_why(c, v)
+    return None
+
+
 def sbody_oracle(c, i):
     """extensions::stream_body(): the length announced is the number of bytes written, and they are the requested part of the file"""
     try:
@@ -1294,6 +1588,8 @@ def extra_oracle(c, i):
     """parity itself, on the implementation's output only"""
     if c.comp == "proto.sbody":
         return sbody_oracle(c, i)
+    if c.comp == "proto.head":
+        return head_oracle(c, i)
     if c.comp not in PAIRS:
         return None
     try:
@@ -1307,7 +1603,15 @@ def extra_oracle(c, i):
         if w1 is None or w2 is None:
             return "request %d: unreadable answer" % k
         if norm(w1) != norm(w2):
-            return "request %d: HTTP/1.1 and HTTP/2 answers differ beyond connection-level headers: %r vs %r" % (k, norm(w1), norm(w2))
+            try:
+                rq = c.x[1][1][1][1][1][k][1]
+                nf = len(rq[2][1])
+                size = (" (request %s %s with %d header fields: an HTTP/1.1 head of about %d bytes, an HTTP/2 header list of about %d bytes)"
+                        % (rq[0][1].decode(), rq[1][1].decode(), nf, 41 + len(rq[0][1]) + len(rq[1][1]) + sum(len(h[1][0][1]) + len(h[1][1][1]) + 4 for h in rq[2][1]),
+                           173 + len(rq[0][1]) + len(rq[1][1]) + sum(len(h[1][0][1]) + len(h[1][1][1]) + 32 for h in rq[2][1]))) if nf > 20 else ""
+            except Exception:
+                size = ""
+            return ("request %d%s: HTTP/1.1 and HTTP/2 answers differ beyond connection-level headers: %r vs %r" % (k, size, norm(w1), norm(w2)))[:3000]
         if isinstance(w1, dict):
             m = c.x[1][5][1][k][1][0][1]
             if m == b"HEAD" and (w1["body"] or w2["body"]):
@@ -1388,4 +1692,13 @@ def extra_coverage(cases, impl, model, spec):
             "answers_that_end_the_http1_connection": sum((impl.get(c.id) or "").count("(L (N 5) (L (N 1") for c in cases),
             "exchanges_on_paths_with_vary_rules": sum(1 for c in pairs for e in c.x[1][5][1] if len(e[1]) > 6 and len(e[1][6][1]) > 2 and e[1][6][1][2][1]),
             "request_body_reads_(proto.body)": len([c for c in cases if c.comp == "proto.body"]),
+            "batches_with_reset_streams_(proto.rst)": len([c for c in cases if c.comp == "proto.rst"]),
+            "streams_reset_by_the_client_in_them": sum(c.meta.get("reset", 0) for c in cases if c.comp == "proto.rst"),
+            "of_which_answered_by_the_limiter": sum(c.meta.get("reset_and_limited", 0) for c in cases if c.comp == "proto.rst"),
+            "request_heads_at_the_front_end_limits_(proto.head)": len([c for c in cases if c.comp == "proto.head"]),
+            "of_which_beyond_the_http1_head_limit": len([c for c in cases if c.comp == "proto.head" and c.meta.get("h1_head", 0) > H1_MAX_HEAD]),
+            "requests_with_100+_header_fields_through_both_protocols": sum(1 for c in pairs for r in c.x[1][1][1][1][1] if len(r[1][2][1]) >= 100),
+            "largest_http2_header_list_through_both_protocols": max([173 + sum(len(h[1][0][1]) + len(h[1][1][1]) + 32 for h in r[1][2][1])
+                                                                     for c in pairs for r in c.x[1][1][1][1][1]] or [0]),
+            "http1_connections_ended_without_close_notify": sum((impl.get(c.id) or "").count("(L (N 6) (L (N 1") for c in cases),
             "layer4_probes": _STATS["probes"], "layer4_probe_failures": _STATS["probe_failures"]}
